@@ -99,6 +99,7 @@ func scanSpecDirs(dirs []string, scanFn scanSpecFunc) error {
 				return scanFn(path, priority, nil, err)
 			}
 
+			verifPoint("scan.beforeRead", path, priority)
 			spec, err = ReadSpec(path, priority)
 			return scanFn(path, priority, spec, err)
 		})
